@@ -13,6 +13,10 @@ variants = [
 ]
 assumptions = ["chain lemma (paper): the local invariant LWF(k) for every cell k and RWF(r) for every row r implies global legality of the rows (cells of a row lie on one chain from rowFirstCell_, ordered, disjoint, inside the row) because widths are positive",
                "the universally quantified invariant is instantiated at the indices the function touches (precondition INV_inst_*); postconditions hold at an arbitrary ghost cell and ghost row"]
+[replay]
+template = "replay/c02_detailed_history.cpp"
+search = true
+inputs = []
 @*/
 #include "lower.h"
 int verif_exc;
